@@ -129,8 +129,8 @@ def enToutesLettres (ℓ : Lang) (n : Int) : Except Crash Str :=
 def isWordChar (c : Char) : Bool := wordChars.contains c
 
 def lastWordSplit (x : Str) : Option (Str × Str) :=
-  let w := (x.reverse.takeWhile isWordChar).reverse
-  if w.isEmpty then none else some (x.take (x.length - w.length), w)
+  let r := tailSplit isWordChar x
+  if r.2.isEmpty then none else some r
 
 /-- `s[-1] == c` for a one-character string `c` (any other `c` never equals a character) -/
 def lastIs (x c : Str) : Bool :=
@@ -138,27 +138,33 @@ def lastIs (x c : Str) : Bool :=
   | some a => c == [a]
   | none => false
 
+/-- `re.search(r"(vingt|cent|ion|iard)s$", lastWord)`: the word ends with one of the stems and the plural mark -/
+def pluralMarked (w : Str) : Bool := ordPluralStems.any (fun st => endsWith w (st ++ ordPluralMark))
+
+/-- the body of `ordinal` once the cardinal `s` is spelled -/
+def ordinalOf (ℓ : Lang) (g : Gender) (s : Str) : Except Crash Str :=
+  if s = ordZeroFr ∨ s = ordZeroEn then pure s
+  else match lastWordSplit s with
+    | none => .error .typeError                             -- `m[2]` with `m is None`
+    | some (pre, lastWord) =>
+      match ℓ with
+      | .en =>
+        match lookup lastWord ordEnExceptions with
+        | some o => pure (pre ++ o)
+        | none => if lastIs s ordYEn then pure (dropRight s 1 ++ ordIethEn) else pure (s ++ ordThEn)
+      | .fr =>
+        if s = ordUnFr then pure (if g = .f then ordPremiereFr else ordPremierFr)
+        else if lastWord = ordUn2Fr then pure (s ++ ordIeme1Fr)
+        else match lookup lastWord ordFrExceptions with
+          | some o => pure (pre ++ o)
+          | none =>
+            if lastIs s ordEFr || pluralMarked lastWord then pure (dropRight s 1 ++ ordIeme2Fr)
+            else pure (s ++ ordIeme3Fr)
+
 def ordinal (ℓ : Lang) (n : Int) (g : Gender) : Except Crash Str :=
   match enToutesLettres ℓ n with
   | .error e => .error e
-  | .ok s =>
-    if s = ordZeroFr ∨ s = ordZeroEn then pure s
-    else match lastWordSplit s with
-      | none => .error .typeError                             -- `m[2]` with `m is None`
-      | some (pre, lastWord) =>
-        match ℓ with
-        | .en =>
-          match lookup lastWord ordEnExceptions with
-          | some o => pure (pre ++ o)
-          | none => if lastIs s ordYEn then pure (dropRight s 1 ++ ordIethEn) else pure (s ++ ordThEn)
-        | .fr =>
-          if s = ordUnFr then pure (if g = .f then ordPremiereFr else ordPremierFr)
-          else if endsWith s ordEtUnFr then pure (s ++ ordIeme1Fr)
-          else match lookup lastWord ordFrExceptions with
-            | some o => pure (pre ++ o)
-            | none =>
-              if lastIs s ordEFr || endsWith s ordQuatreVingtsFr then pure (dropRight s 1 ++ ordIeme2Fr)
-              else pure (s ++ ordIeme3Fr)
+  | .ok s => ordinalOf ℓ g s
 
 /-! ### `roman` (Number.py:145-154) -/
 
